@@ -44,6 +44,12 @@ fn closures() -> Vec<(&'static str, Vec<&'static str>, usize)> {
         ("callback-param-then-capture", vec!["f = x => [[x, x] via (a => [a]), a, b]"], 1),
         ("factory-nested-lambda-param-then-capture", vec!["mk = (k) => (v) => [[v] via (k => [k]), k, b]", "f = mk(a)"], 1),
         ("nested-optional-rest-params-then-capture", vec!["f = x => [((a?, ...b) => [a, b])(x), a, b]"], 1),
+        // a do-block that is not in tail position assigns a local named like a captured name, and the
+        // captured name is read after the block (only there)
+        ("do-local-then-later-capture-use", vec!["f = x => [do {\n  a = [x]\n  return a\n}, a, b]"], 1),
+        ("cond-do-local-else-capture-use", vec!["f = x => if x == null then do {\n  a = 0\n  return a\n} else [a, x]"], 1),
+        ("nested-do-local-then-capture-use", vec!["f = x => do {\n  t = do {\n    b = [x]\n    return b\n  }\n  return [t, b, a]\n}"], 1),
+        ("operand-do-local-then-capture-use", vec!["f = x => [do {\n  b = 1\n  return b\n} + 1, [b, a]]"], 1),
         // a parameter named like the function itself (required, optional, rest): the parameter wins
         ("param-named-like-function", vec!["f = f => [a, f]"], 1),
         ("optional-param-named-like-function", vec!["f = (f?) => [a, f]"], 1),
